@@ -191,6 +191,15 @@ static lp_polynomial_t* coeff_poly(void) {
 
 /* polynomial with main variable y = x3 as a product of 1-2 factors with coefficients in x0..x2 */
 static lp_polynomial_t* main_poly(void) {
+  /* the same rational root reached through two different square-free factors, one of them linear in y under the assignment and
+     one not: (y - x_i)^2 * (y^2 - c^2) or (y - x_i)^2 * (y - c)(y - c - 1) with x_i -> c */
+  if (chance(8)) for (int i = 0; i < nvals; ++i) if (lp_value_is_integer(&vals[i])) {
+    lp_integer_t z; lp_integer_construct(&z); lp_value_floor(&vals[i], &z); long c = lp_integer_to_int(&z); lp_integer_destruct(&z);
+    lp_polynomial_t* lin = P_sub(P_var(3, 1), P_var(i, 1)); lp_polynomial_t* lin2 = lp_polynomial_new_copy(lin);
+    lp_polynomial_t* q = chance(50) ? P_sub(P_var(3, 2), P_const(c * c))
+                                    : P_mul(P_sub(P_var(3, 1), P_const(c)), P_sub(P_var(3, 1), P_const(c + 1)));
+    return P_mul(P_mul(lin, lin2), q);
+  }
   lp_polynomial_t* p = P_const(1);
   int nf = 1 + rnd(2);
   for (int j = 0; j < nf; ++j) {
